@@ -144,6 +144,13 @@ func (c *Conn) SetWindow(n int) {
 	c.mu.Unlock()
 }
 
+// PeerEnded reports whether the actor side ended the connection (FIN or RST queued or delivered).
+func (c *Conn) PeerEnded() bool {
+	c.mu.Lock()
+	defer c.mu.Unlock()
+	return c.pendingFin || c.pendingRst || c.rdEOF || c.rdReset
+}
+
 // ClosedByLal reports whether lal closed its end.
 func (c *Conn) ClosedByLal() bool {
 	c.mu.Lock()
@@ -399,7 +406,8 @@ type Listener struct {
 	addr    Addr
 	mu      sync.Mutex
 	cond    *sync.Cond
-	backlog []*Conn
+	backlog []*Conn // connections the driver has let through: Accept returns them
+	waiting []*Conn // connections made by actors, not yet let through (one "accept" action each)
 	closed  bool
 	nconn   int
 }
@@ -486,10 +494,21 @@ func (k *Kernel) Connect(port int, clientName string, ipk int, h ConnHandler) *C
 	l.mu.Unlock()
 	c := k.newConn(clientName, l.addr, Addr{Net: "tcp", Host: fmt.Sprintf("10.0.%d.1", ipk), Port: 30000 + n}, h)
 	l.mu.Lock()
-	l.backlog = append(l.backlog, c)
-	l.cond.Broadcast()
+	l.waiting = append(l.waiting, c)
 	l.mu.Unlock()
 	return c
+}
+
+// letOneThrough hands the oldest waiting connection to Accept (a driver action: connections are
+// accepted one per step, so that lal's per-connection set-up never runs concurrently).
+func (l *Listener) letOneThrough() {
+	l.mu.Lock()
+	if len(l.waiting) > 0 {
+		l.backlog = append(l.backlog, l.waiting[0])
+		l.waiting = l.waiting[1:]
+		l.cond.Broadcast()
+	}
+	l.mu.Unlock()
 }
 
 // Listening reports whether lal listens on port.
@@ -523,6 +542,8 @@ func (k *Kernel) netDial(network, addr string) (net.Conn, error) {
 }
 
 func (k *Kernel) netDialTimeout(network, addr string, timeout time.Duration) (net.Conn, error) {
+	k.nameGoroutine("dial:" + addr)
+	k.parkDial(addr)
 	k.mu.Lock()
 	f := k.stubs[addr]
 	n := len(k.conns)
